@@ -124,7 +124,11 @@ class Model:
                     self.used.add("A-jd")
                     return True, IFloat(a[0].t)
         if re.match(r"^f64::<impl f64>::floor$", callee) and a and isinstance(a[0], HalfFloat):
-            return True, IFloat(T("(div %s 2)" % a[0].t.s, "Int"))      # floor of an exact half: SMT div floors
+            return True, IFloat(T("(div %s %d)" % (a[0].t.s, a[0].c), "Int"))      # floor of t/c: SMT div floors for c > 0
+        if re.match(r"^f64::<impl f64>::ceil$", callee) and a and isinstance(a[0], HalfFloat):
+            return True, IFloat(T("(- (div (- %s) %d))" % (a[0].t.s, a[0].c), "Int"))   # ceil(t/c) = -floor(-t/c)
+        if re.match(r"^f64::<impl f64>::ceil$", callee) and a and isinstance(a[0], IFloat):
+            return True, a[0]
         if re.match(r"^f64::<impl f64>::floor$", callee) and a and isinstance(a[0], IFloat):
             return True, a[0]
         if re.match(r"^core::num::<impl \w+>::abs$", callee) and isinstance(a[0], T):
